@@ -449,27 +449,55 @@ func checkC10(c *Ctx) {
 func (c *Ctx) strategyNameTables() (validator, create, set []string, okAll bool) {
 	p := c.P
 	okAll = true
-	switchCases := func(fn *ssa.Function) []string {
-		var out []string
-		if fn == nil {
-			okAll = false
-			return nil
+	create = c.switchStrings(c.strategyFactory())
+	setFn := p.Fn("internal/loadbalancer", "LoadBalancer", "SetStrategy")
+	set = c.switchStrings(setFn)
+	if len(set) == 0 && setFn != nil {
+		// SetStrategy may share the factory
+		for _, ci := range callsIn(setFn) {
+			if StaticFn(ci) == c.strategyFactory() {
+				set = create
+			}
 		}
-		instrsOf(fn, func(in ssa.Instruction) {
-			if b, ok := in.(*ssa.BinOp); ok && b.Op.String() == "==" {
-				if _, isParam := b.X.(*ssa.Parameter); isParam {
-					if s, ok := constStr(b.Y); ok {
-						out = append(out, s)
-					}
+	}
+	if len(create) == 0 || len(set) == 0 {
+		okAll = false
+	}
+	validator = c.mapLiteralKeys(p.Fn("internal/config", "Config", "validateLoadBalancer"))
+	if len(validator) == 0 {
+		// the strategy table may live in a merged validator
+		for _, fn := range p.Funcs {
+			if fn.Signature.Recv() != nil && QualType(namedOf(fn.Signature.Recv().Type())) == "config.Config" && strings.HasPrefix(fn.Name(), "validate") {
+				if ks := c.mapLiteralKeys(fn); contains(ks, "round_robin") {
+					validator = ks
 				}
 			}
-		})
-		return uniqueStrings(out)
+		}
 	}
-	create = switchCases(p.Fn("internal/loadbalancer", "", "createStrategy"))
-	set = switchCases(p.Fn("internal/loadbalancer", "LoadBalancer", "SetStrategy"))
-	validator = c.mapLiteralKeys(p.Fn("internal/config", "Config", "validateLoadBalancer"))
 	return
+}
+
+// strategyFactory: the function that turns the configured strategy name into a strategy at start-up —
+// createStrategy, or the constructor it was inlined into: a function of the balancer package, other
+// than SetStrategy, that compares a string with the strategy names and builds strategies.
+func (c *Ctx) strategyFactory() *ssa.Function {
+	p := c.P
+	if f := p.Fn("internal/loadbalancer", "", "createStrategy"); f != nil {
+		return f
+	}
+	var out *ssa.Function
+	for _, fn := range p.Funcs {
+		pk := fnPkg(fn)
+		if pk == nil || !strings.HasSuffix(pk.Pkg.Path(), "/internal/loadbalancer") || fn.Name() == "SetStrategy" || fn.Parent() != nil {
+			continue
+		}
+		if ks := c.switchStrings(fn); contains(ks, "round_robin") && contains(ks, "least_connections") {
+			if out == nil || fn.Name() < out.Name() {
+				out = fn
+			}
+		}
+	}
+	return out
 }
 
 // mapLiteralKeys: constant string keys inserted into map literals in fn.
